@@ -4,24 +4,27 @@ import ScriggoV.Gen.Precedence
 
 Hand-written executable model (core Lean only) of
 
-* `ast/ast.go`: the `String()` methods of `Identifier`, `BasicLiteral` (int), `UnaryOperator`,
-  `BinaryOperator`, `Call`, `Index`, `Selector` (as they are: only `*x`/`<-x` under a call is
-  parenthesised, see `callParens`) and the parentheses count of `expression`
-  (`print`, to a list of *tokens*; the parenthesisation conditions and the precedence table are
-  the generated definitions of `Gen/Precedence.lean`);
+* `ast/ast.go`: the `String()` methods of `Identifier`, `BasicLiteral`, `UnaryOperator`,
+  `BinaryOperator`, `Call`, `Index`, `Slicing`, `Selector`, `TypeAssertion`, `Default`,
+  `SliceType`, `ArrayType`, `MapType`, `ChanType`, `Interface` and the parentheses count of
+  `expression` (`print`, to a list of *tokens*; the parenthesisation conditions of the two operator
+  nodes, the precedence table and the enumerations are the generated definitions of
+  `Gen/Precedence.lean`; `callParens`, `chanParens` mirror `Call.String` and `ChanType.String`);
 * `internal/compiler/parser_expressions.go`: `parseExpr` restricted to the tokens `print` emits
   (`parse`). The operator-path algorithm is the real one (`path` is `List Frame`, leaf first:
   a unary operator is pushed; a binary operator goes up the path while
   `op.Precedence() <= path[p-1].Precedence()` — `reduce` — and becomes the new leaf;
-  `addLastOperand` is `closeAll`). The recursive calls of `parseExpr` for `( e )`, `f(args)` and
-  `e[i]` are made explicit as a stack of suspended contexts (`Ctx`), so that the parser is a fold
-  of `step` over the tokens: `Mode.operand` is the top of the outer `for` loop (an operand or a
-  unary operator is expected), `Mode.operator e` is the inner loop `for operator == nil` after
-  the operand `e`.
+  `addLastOperand` is `closeAll`). The recursive calls of `parseExpr` (`( e )`, `f(args)`, `e[i]`,
+  `e[lo:hi:max]`, `e.(T)`, `[n]T`, `map[K]V`, `chan T`, the right side of `default`) are made
+  explicit as a stack of suspended calls (`Ctx`: what the caller waits for, its `path`, its
+  `mustBeType`), so that the parser is a fold of `step` over the tokens. `Mode.operand` is the top
+  of the outer `for` loop, `Mode.operator e` the inner loop `for operator == nil` after the operand
+  `e`; with `mustBeType` the call returns as soon as it has its operand (`complete`), except that
+  an identifier may still be followed by `.name` (`Mode.tyIdent`, `settle`).
 
 A parenthesised expression is `Expr.paren e` (the real tree keeps a count on the node:
 `expr.SetParenthesis(expr.Parenthesis() + 1)`); `String()` ignores the count and looks at the
-node's type, hence `print (.paren e) = print e` and `prec?` looks through `paren`.
+node's type, hence `print (.paren e) = print e` and `prec?`, `core` look through `paren`.
 -/
 namespace ScriggoV.ExprPP
 open ScriggoV.Gen.Precedence
@@ -420,7 +423,16 @@ def step (s : St) (t : Token) : Option St :=
     | .op .contains =>
       let r := reduce (bprec .notContains) e s.path
       some { s with mode := .operand, path := .bin .notContains r.1 :: r.2 }
-    | _ => none
+    | _ =>
+      -- `next := p.next()` was not `contains`: the call returns with `tok` still the `not` token and
+      -- `next` is lost. Every caller rejects `not`, except the one that was parsing the right side
+      -- of a `default`: its loop goes on with the `not` (and reads the token after the lost one).
+      match s.ctxs with
+      | c :: k =>
+        match c.kind with
+        | .dfltRhs l => some ⟨.notc (.dflt l (closeAll e s.path)), c.path, c.ty, k⟩
+        | _ => none
+      | [] => none
   | .variadic e =>
     match t with
     | .rparen => some (complete e s.path s.ty s.ctxs)
